@@ -15,7 +15,7 @@ import deribit_lib as L
 from common import Ctx
 
 PROPERTY = "C15"
-LEAN_MODULES = ["Proofs.C15"]
+LEAN_MODULES = ["Proofs.C15", "Proofs.C15.Seq"]
 DRIVERS = ["driver_deribit"]
 RULE = ("random books (1-4 instruments, 0-12 levels a side, int and float sizes incl. emptied levels, prices on and off the 0.0005 grid, ETH and BTC "
         "steps) and sequences of 1-8 buys/sells inside one bar; buckets = (side, pricing mode market/limit-exact/limit-near/limit-edge/limit-usd "
